@@ -81,6 +81,16 @@ func c06Start() (*c06Worker, error) {
 
 func (w *c06Worker) kill() {
 	w.in.Close()
+	if os.Getenv("GOCOVERDIR") != "" {
+		// tools/coverage.sh: let an idle worker leave through main so that its counters are written
+		done := make(chan struct{})
+		go func() { w.cmd.Wait(); close(done) }()
+		select {
+		case <-done:
+			return
+		case <-time.After(2 * time.Second):
+		}
+	}
 	w.cmd.Process.Kill()
 	w.cmd.Wait()
 }
